@@ -21,6 +21,7 @@ from .c12 import Src, comment_texts, hx, unhx
 
 PID = "C13"
 KNOWN_IFDEF = "line-coverage-unanchored-ifdef-guard"
+KNOWN_INFER = "line-coverage-unanchored-inferred-type"
 
 MANIFEST = {
     "category": "other",
@@ -197,6 +198,10 @@ def judge(text, sv, mapjs, lx):
                     bad.append((KNOWN_IFDEF, "output line %d %r (a preprocessor guard the emitter writes for a duplicated / expanded item) holds the "
                                 "mapped identifier %r but has no entry" % (ln + 1, sv_lines[ln].strip(), sorted(hit)[0])))
                     break
+                if re.fullmatch(r"\s*(logic|bit)(\s+signed)?\s*(\[[^\]]*\]\s*)+", sv_lines[ln]):
+                    bad.append((KNOWN_INFER, "output line %d %r (the type the emitter synthesizes for a variable declared without one) holds the "
+                                "mapped identifier %r but has no entry" % (ln + 1, sv_lines[ln].strip(), sorted(hit)[0])))
+                    break
                 bad.append(("line-coverage", "output line %d holds the mapped identifier %r but has no entry: %r" % (
                     ln + 1, sorted(hit)[0], sv_lines[ln][:80])))
                 break
@@ -212,6 +217,15 @@ OPT_SETS = [
     ("1", "120", "4", "auto", "1"),
     ("1", "200", "4", "unix", "0"),
     ("0", "10", "1", "auto", "0"),
+]
+
+
+# vertical_align on, narrow pages: aligned groups break, so the pads that are only written in
+# break mode (struct constructor members) and the entries to their right are exercised
+NARROW_SETS = [
+    ("1", "20", "4", "auto", "0"),
+    ("1", "30", "2", "unix", "0"),
+    ("1", "40", "4", "auto", "0"),
 ]
 
 
@@ -245,6 +259,24 @@ def map_side_panic(loc):
     return any(x in loc for x in ("crates/sourcemap/", "crates/pretty/", "/sourcemap-", "veryl-sourcemap", "veryl-pretty"))
 
 
+_CTOR_LINE = re.compile(r"^\s*[A-Za-z_][A-Za-z0-9_$]*( +):")
+
+
+def entries_right_of_ctor_pad(sv, ents):
+    """number of entries that sit on a member line `name<pad>: value` of a broken struct constructor
+    whose name is followed by at least one blank of padding, at or after the colon"""
+    padded = {}
+    depth = 0
+    for ln, line in enumerate(lines_of(sv)):
+        if depth > 0:
+            m = _CTOR_LINE.match(line)
+            if m:
+                padded[ln] = m.end() - 1
+        depth += line.count("'{") - (line.count("}") if depth > 0 else 0)
+        depth = max(depth, 0)
+    return sum(1 for (dl, dc, _, _, n) in ents if dl in padded and dc >= padded[dl] and n)
+
+
 def corpus_texts():
     d = os.path.join(C.VERIF, "corpus", PID)
     out = []
@@ -258,15 +290,21 @@ def corpus_texts():
 def gen_cases(rng, n_synth, relayouts, lx):
     cases = []
     for label, text in corpus_texts():
-        for o in OPT_SETS[:4]:
+        for o in OPT_SETS[:4] + NARROW_SETS:
             cases.append((label, o, text))
     for i in range(n_synth):
         toks = V.gen_program(rng, rng.randint(1, 3))
         prof = rng.choice(V.PROFILE_NAMES)
-        cases.append(("synthetic/%s/%d" % (prof, i), gen_opts(rng), V.layout(toks, rng, prof, lx)))
+        text = V.layout(toks, rng, prof, lx)
+        cases.append(("synthetic/%s/%d" % (prof, i), gen_opts(rng), text))
+        if "'{" in text:
+            # constructors with members of unequal width: once plain, once noisy, on narrow pages
+            cases.append(("synthetic/plain/%d" % i, rng.choice(NARROW_SETS), V.layout(toks, rng, "plain", lx)))
+            cases.append(("synthetic/%s/%d" % (prof, i), rng.choice(NARROW_SETS), text))
     for p, t in V.repo_testcases(C.REPO):
         cases.append((p, OPT_SETS[0], t))
         cases.append((p, gen_opts(rng), t))
+        cases.append((p, rng.choice(NARROW_SETS), t))
         for k in range(relayouts):
             prof = rng.choice(V.PROFILE_NAMES)
             try:
@@ -352,7 +390,7 @@ def run(tier, seed, replay):
     outs = run_cases(binary, cases)
     fails = []
     extra_fails = []
-    n_ok = n_err = n_clean = n_entries = 0
+    n_ok = n_err = n_clean = n_entries = n_pad = 0
     distinct = set()
     for i, ((label, opts, text), r) in enumerate(zip(cases, outs)):
         if not isinstance(r, dict):
@@ -376,6 +414,8 @@ def run(tier, seed, replay):
         n_ok += 1
         bad, ents = judge(text, r["sv"], r["map"], lx)
         n_entries += len(ents)
+        if opts[0] == "1":
+            n_pad += entries_right_of_ctor_pad(r["sv"], ents)
         # anchors that fall outside the hypotheses of the Coq theorems (wf_pos: non-empty, not ending in a blank)
         res.count("entries_with_empty_name_(start_token)", sum(1 for e in ents if e[4] == ""))
         res.count("entries_whose_name_ends_in_a_blank", sum(1 for e in ents if e[4] and e[4].endswith(" ")))
@@ -396,6 +436,12 @@ def run(tier, seed, replay):
     res.coverage["rejected_by_parser"] = n_err
     res.coverage["map_entries_checked"] = n_entries
     res.coverage["distinct_nontrivial"] = len(distinct)
+    res.coverage["entries_right_of_a_break_mode_pad"] = n_pad
+    res.obligation("the stream reaches entries to the right of a break-mode alignment pad (broken struct constructors under "
+                   "vertical_align): %d entries" % n_pad, n_pad >= 20)
+    if n_pad < 20:
+        res.violation("generator-shape", "only %d map entries lie to the right of a break-mode alignment pad; the check no longer "
+                      "exercises that renderer path" % n_pad, {"no_longer_checks": "IfBreakPad column bookkeeping end to end"}, no_input=True)
     res.coverage["rule"] = ("(design text, options): synthetic designs and every repository testcase (original and re-laid-out under 6 noise "
                             "profiles) x [format] vertical_align/max_width/indent_width/newline_style x [build] strip_comments; non-trivial = "
                             "builds without analyzer errors and its map has >= 20 entries; distinct by text+options")
